@@ -221,6 +221,10 @@ def forked_unseeded(ctx, aotools, rng):
             out = None            # the parent meets the same exception itself; do not keep it waiting
         q.put((tag, out))
 
+    # the parent has already made unseeded FFT screens when it forks (state created lazily by a first unseeded call would be
+    # inherited by every child); the infinite screens are left out here because numba's OpenMP layer must not be used before a fork
+    for spec_ in u[:2]:
+        isolated.create(aotools, spec_)
     procs = [c.Process(target=child, args=(k,)) for k in range(3)]
     [p.start() for p in procs]
     got = {}
